@@ -10,7 +10,7 @@ import progs  # noqa: E402
 
 
 def main():
-    chk = Check('C01')
+    chk = Check('C01', extra_modules=['Bardolph.Props.C01Sim', 'Bardolph.Proofs.Sim', 'Bardolph.Proofs.SimStmts', 'Bardolph.Proofs.SimLoops', 'Bardolph.Proofs.SimLoad', 'Bardolph.Proofs.SimCalls'])
     chk.lean_phase(sections=set())
     rng = chk.rng
     n = 2500 if chk.thorough else 260
@@ -95,6 +95,19 @@ def _corpus():
                                     ('light', ('str', 'Strip'))], 'L', None),
                   [('print', ('call', 'deep', [num(2)])), ('action', 'on', [('light', v('L'))])]),
                  ('print', ('expr', ('bin', '+', num(100), ('call', 'deep', [num(2)]))))], pop))
+    # every edge between unit modes with a duration and a delay pending: the commands and waits
+    # before and after the switch carry the durations the source says
+    import itertools
+    for a, b, c in itertools.permutations(['logical', 'raw', 'rgb'], 3):
+        dur, tm = (1500, 2000) if a == 'raw' else (1.5, 2)
+        out.append(([('units', a), ('setreg', 'duration', num(dur)), ('setreg', 'time', num(tm)),
+                     ('action', 'set', [('light', ('str', 'Top'))]),
+                     ('units', b), ('action', 'set', [('light', ('str', 'Lamp'))]),
+                     ('action', 'on', [('group', ('str', 'Pole'))]), ('wait',),
+                     ('units', c), ('action', 'set', [('light', ('str', 'Middle'))]),
+                     ('action', 'off', 'all'), ('wait',),
+                     ('units', a), ('action', 'set', 'all'), ('print', ('reg', 'duration')),
+                     ('print', ('reg', 'time'))], pop))
     return out
 
 
